@@ -116,3 +116,20 @@ Lemma map_qn_plain (s : str) : (forall c, In c s -> qn c = c) -> map qn s = s.
 Proof. intros H. rewrite <- (map_id s) at 2. apply map_ext_in. exact H. Qed.
 Theorem find_quote_plain sp t : (forall c, In c t -> qn c = c) -> (forall c, In c (map_text sp) -> qn c = c) -> find_quote sp t = find_on sp t.
 Proof. intros Ht Hs. unfold find_quote, find_on. now rewrite (map_qn_plain _ Ht), (map_qn_plain _ Hs). Qed.
+
+(* ---------- how the heuristic path weighs the views (fix D44) once the quote stage is part of the model ---------- *)
+(* the accepted-view map the heuristic path consults: the cached one, else built from the document as it stands *)
+Definition clean_of (s : est) : list ospan :=
+  match s_clean s with Some c => c | None => build_map true (d_comments (e_doc (s_eng s))) (e_doc (s_eng s)) end.
+(* fix D44 with the quote stage modelled: when the raw view has no exact occurrence, an exact accepted-view occurrence on document text is what
+   the edit is applied to, on the accepted-view map - whatever the quote stage or a later stage answered on the raw view *)
+Lemma locate_clean_exact s t orc i : find_on (s_raw s) t = None -> find_on (clean_of s) t = Some i ->
+  fst (fst (fst (locate s t orc))) = Some (i, length t) /\ snd (fst (fst (locate s t orc))) = true
+  /\ snd (locate s t orc) = snd (approx (s_raw s) t orc).
+Proof. intros H0 H1. unfold locate, clean_of in *. rewrite H0. destruct (approx (s_raw s) t orc) as [m1 orc1].
+  destruct (s_clean s) as [c|]; cbn [fst snd]; rewrite H1; cbn [fst snd]; auto. Qed.
+(* ... and when neither view has an exact occurrence, a raw-view quote-stage answer is the one used, on the raw map *)
+Lemma locate_quote_raw s t orc i : find_on (s_raw s) t = None -> find_on (clean_of s) t = None -> find_quote (s_raw s) t = Some i ->
+  fst (fst (fst (locate s t orc))) = Some (i, length t) /\ snd (fst (fst (locate s t orc))) = false /\ snd (locate s t orc) = orc.
+Proof. intros H0 H1 H2. unfold locate, clean_of in *. rewrite H0. unfold approx. rewrite H2.
+  destruct (s_clean s) as [c|]; cbn [fst snd]; rewrite H1; cbn [fst snd]; auto. Qed.
